@@ -202,15 +202,10 @@ Definition finish_mem (sh : shape) (p : F.pln) (fl : list nat) (m : dimg) : dimg
          only: the repair of a sequence is not written before its block's terminal write): fixBlock does not look
          into a block that is not Running;
      R6  a block, its sequences and their actions while the PLAN's continuous group is durably Failed: fixPlan
-         marks the plan Failed, Recovery goes to End and the block that was executing is abandoned.
-   and one deviation of the OUTCOME (nothing is left Running by it):
-     R7  a block that was Running with its pre group Completed and its continuous group not (yet) Completed:
-         BlockPreChecks skips the initial continuous run together with the pre group, the sequences run ungated and
-         the block may end Completed although its continuous check fails (the plan outcome then differs from the
-         uninterrupted run's). *)
-Record devs := { dev_R2 : bool; dev_R3 : bool; dev_R5 : bool; dev_R6 : bool; dev_R7 : bool }.
-Definition dev_none : devs := {| dev_R2 := false; dev_R3 := false; dev_R5 := false; dev_R6 := false; dev_R7 := false |}.
-Definition dev_all : devs := {| dev_R2 := true; dev_R3 := true; dev_R5 := true; dev_R6 := true; dev_R7 := true |}.
+         marks the plan Failed, Recovery goes to End and the block that was executing is abandoned. *)
+Record devs := { dev_R2 : bool; dev_R3 : bool; dev_R5 : bool; dev_R6 : bool }.
+Definition dev_none : devs := {| dev_R2 := false; dev_R3 := false; dev_R5 := false; dev_R6 := false |}.
+Definition dev_all : devs := {| dev_R2 := true; dev_R3 := true; dev_R5 := true; dev_R6 := true |}.
 
 Definition is_check_action (o : obj) : bool := match o with OAct (AChk _ _ _) => true | _ => false end.
 Definition is_block (o : obj) : bool := match o with OBlock _ => true | _ => false end.
@@ -238,14 +233,6 @@ Definition excused (d : devs) (sh : shape) (I : dimg) (o : obj) : bool :=
       || (dev_R6 d && group_failed sh I SPlan GCont)
   | None => false
   end.
-
-(* the crash image has a Running block whose pre group is Completed while its continuous group is not: the window in
-   which BlockPreChecks skips the initial continuous run (R7) *)
-Definition gap_image (sh : shape) (I : dimg) : bool :=
-  existsb (fun b => status_eqb (ist I (OBlock b)) Running
-                    && grp_present sh (SBlock b) GPre && status_eqb (ist I (OChecks (SBlock b) GPre)) Completed
-                    && grp_present sh (SBlock b) GCont && negb (status_eqb (ist I (OChecks (SBlock b) GCont)) Completed))
-          (seq 0 (length (sh_blocks sh))).
 
 Definition mst (m : obj -> cell) (o : obj) : status := c_st (m o).
 
